@@ -27,7 +27,8 @@ MONITORS = ["decode", "repeat_iteration", "interleaved_iteration", "ordering_ops
 REQUIRED = ["measure_repeated_after_empty_measures", "odd_rows", "rows_192", "rows_above_192", "keysound_shifts_later_column", "three_players", "crlf",
             "same_position_pair", "cross_player_pair", "corpus_chart", "interleaved_passes_over_keysounded_rows",
             "constructed_by_keyword", "note_beyond_measure_256", "measure_separator_on_a_row_line",
-            "inexact_beats_of_equal_value_built_before_decoding"]
+            "inexact_beats_of_equal_value_built_before_decoding", "keysound_index_of_2_to_the_31_or_more",
+            "leading_blank_and_a_one_row_first_measure_in_compact_layout"]
 
 
 def anchors():
@@ -92,6 +93,18 @@ def cases(ctx):
             cols, exp = scan_text(text)
             yield {"kind": "corpus", "name": name, "text": text, "columns": cols,
                    "expected": [[p, b.numerator, b.denominator, c, t, k] for p, b, c, t, k in exp]}
+    if ctx.shard == 0:
+        # compact layouts that begin with a blank and whose first measure is a single row with the separator on its line
+        for lead in ("\n", "\t", " \n", "\r\n"):
+            for cols in (1, 4, 6):
+                first = [[["1" if c == 0 else "0", None] for c in range(cols)]]
+                second = [[["M" if (c + r) % 3 == 0 else "0", None] for c in range(cols)] for r in range(rng.choice([1, 2, 4]))]
+                cells = [[first, second]]
+                row = lambda rw: "".join(ch for ch, _ in rw)
+                text = lead + row(first[0]) + ",\n" + "\n".join(row(r) for r in second) + "\n"
+                exp = G.expected_notes(cells)
+                yield {"kind": "gen", "text": text, "columns": cols,
+                       "expected": [[p, b.numerator, b.denominator, c, t_, k] for p, b, c, t_, k in exp], "rows": [1, len(second)]}
     n = ctx.split(2500 if ctx.tier == "quick" else 16 * 25000)
     for i in range(n):
         cells = G.gen_cells(rng)
@@ -165,6 +178,10 @@ def check(ctx, case):
         ctx.feat("note_beyond_measure_256")
     if "," in text and any("," in ln.strip() and ln.strip() != "," for ln in text.splitlines()):
         ctx.feat("measure_separator_on_a_row_line")
+        if text[:1] in " \t\r\n" and case.get("rows") and text.lstrip().split(",")[0].strip().count("\n") == 0:
+            ctx.feat("leading_blank_and_a_one_row_first_measure_in_compact_layout")
+    if any(e[5] is not None and e[5] >= 2**31 for e in exp):
+        ctx.feat("keysound_index_of_2_to_the_31_or_more")
     # every iteration of the object yields all notes: abandon one early, nest two, then take the full pass twice
     ctx.mon("repeat_iteration")
     it = iter(nd)
